@@ -1167,6 +1167,10 @@ impl Sim {
         let d = self.d.clone();
         let balances = self.balances();
         let supply = self.glv_supply();
+        if supply == 0 {
+            // the view divides by the supply
+            return;
+        }
         for maximize in [true, false] {
             let mut scratch = self.w.clone();
             let out = scratch.process(glvx::get_glv_token_value_ix(&d, &self.k, &glv, supply.max(1), maximize));
